@@ -616,7 +616,7 @@ Definition g_malformed (rs : list route) (q : greq) : bool :=
 Record gcase := { gc_id : Z; gc_req : greq; gc_obs : obs }.
 Definition g_spec_ok (rs : list route) (q : greq) (ob : obs) : bool :=
   responded (ob_outcome ob) && ob_canary_ok ob
-  && (ob_alloc_kb ob <=? alloc_bound_kb (ob_body_kb ob))%Z
+  && (ob_alloc_kb ob <=? alloc_bound_kb (served_kb ob))%Z
   && match ob_outcome ob with O2xx => negb (g_malformed rs q) | _ => true end.
 Definition g_mismatches (rs : list route) (cs : list gcase) : list Z :=
   map gc_id (filter (fun c => negb (accepts (g_predict rs (gc_req c)) (ob_outcome (gc_obs c)))) cs).
